@@ -49,3 +49,6 @@ META = {
                "independent exact dict model, exhaustive small spaces + "
                "random operands",
 }
+
+# EXTENSION families added after the seeded-change rounds
+META["rule"] += (" Added after the seeded-change rounds: " '(c07_x) hash/eq of results derived from an already-hashed operand; products / sums / squares of 8..14-term polynomials with non-dyadic Fractions under the default float zero, zero=0 and zero=Fraction(0); evaluate - overwrite a coefficient - evaluate' ".")
